@@ -16,8 +16,8 @@ def expand(items, features=("serde-compat",), tag="m"):
     for it in items:
         if "\n" in it:
             raise ToolError("driver items must be single-line: %r" % it[:80])
-    inp = os.path.join(vlib.BUILD, "drv-%s-%d.in" % (tag, os.getpid()))
-    out = os.path.join(vlib.BUILD, "drv-%s-%d.out" % (tag, os.getpid()))
+    inp = os.path.join(vlib.TMP, "drv-%s-%d.in" % (tag, os.getpid()))
+    out = os.path.join(vlib.TMP, "drv-%s-%d.out" % (tag, os.getpid()))
     with open(inp, "w") as f:
         for it in items:
             f.write(it + "\n")
